@@ -34,8 +34,8 @@ def ncells(shape):
 
 def gen_case(rng, max_events=24, kind=None):
     kind = kind or rng.choice(KINDS)
-    payload = rng.choice(["plain", "plain", "masked"])
-    shape = rng.choice(["g2", "g22"]) if payload == "masked" else rng.choices(list(SHAPES), weights=[5, 3, 2])[0]
+    payload = rng.choice(["plain", "plain", "masked", "maskedflex"])
+    shape = rng.choice(["g2", "g22"]) if payload != "plain" else rng.choices(list(SHAPES), weights=[5, 3, 2])[0]
     if kind == "stack" and shape == "scalar":
         shape = "g2"  # StackTime rejects stacked scalar (NoGrid) payloads with or without a limit; not a spill matter
     nc = ncells(shape)
@@ -112,6 +112,12 @@ def make_adapter(case):
 def payload_of(case, vals, dshape):
     arr = np.array(vals, dtype=float).reshape(dshape)
     if case["payload"] == "masked":
+        return np.ma.masked_array(arr, np.array(MASKS[case["shape"]]).reshape(dshape))
+    if case["payload"] == "maskedflex":
+        # flexible mask (no mask in the metadata): the mask varies from publication to publication and is
+        # empty for some of them (a MaskedArray without any masked cell)
+        if int(vals[0]) % 2 == 0:
+            return np.ma.masked_array(arr, np.zeros(dshape, dtype=bool))
         return np.ma.masked_array(arr, np.array(MASKS[case["shape"]]).reshape(dshape))
     return arr
 
@@ -245,6 +251,11 @@ def same_answer(case, a, m):
     if len(rows) != len(m["ok"]):
         return False
     idx = unmasked(case)
+    nc = ncells(case["shape"])
+    if case["payload"] == "maskedflex" and len(a["mask"]) == nc * len(rows):
+        # time-varying mask: compare the cells that are unmasked in the delivered answer
+        return all(close(r[i], q[i][0] / q[i][1]) for k, (r, q) in enumerate(zip(rows, m["ok"])) for i in idx
+                   if not a["mask"][k * nc + i])
     return all(close(r[i], q[i][0] / q[i][1]) for r, q in zip(rows, m["ok"]) for i in idx)
 
 
@@ -296,6 +307,9 @@ def comp_case(rng, kind=None):
         c["shape"] = "g2"
     c["cons_step_h"] = rng.choice([6, 12, 24, 36])
     c["days"] = rng.choice([2, 3, 4])
+    # who carries the limit: the composition (slot_memory_limit) or the slot itself (its own memory_limit, while the
+    # composition's default limit is None or generous); the location always comes from the composition
+    c["own_limit"] = rng.choice([None, None, "none", "generous"])
     return c
 
 
@@ -308,6 +322,7 @@ def run_composition(case, location, limit):
     if case["payload"] == "masked":
         info_kw["mask"] = np.array(MASKS[case["shape"]]).reshape(dshape)
     day = td(86_400_000_000)
+    os.makedirs(location, exist_ok=True)
 
     def gen(t):
         k = (t - EPOCH) // day
@@ -326,18 +341,30 @@ def run_composition(case, location, limit):
         outside.extend(sorted(set(os.listdir(os.getcwd())) - cwd0))
         return {}
 
-    src = fm.components.CallbackGenerator(
+    own = case.get("own_limit")
+    comp_limit = limit if (own is None or limit is None) else (None if own == "none" else 1 << 30)
+    slot_limit = limit if (own is not None and limit is not None) else None
+
+    class Gen(fm.components.CallbackGenerator):
+        def _initialize(self):
+            super()._initialize()
+            if slot_limit is not None and case["kind"] == "output":
+                self.outputs["Out"].memory_limit = slot_limit   # configured individually, before the hand-over
+
+    src = Gen(
         {"Out": (gen, fm.Info(time=None, grid=grid, units=case["units"], **info_kw))}, start=EPOCH, step=day)
     cons = fm.components.CallbackComponent(
         inputs={"In": fm.Info(time=None, grid=None, units=None)}, outputs={}, callback=cb,
         start=EPOCH, step=td(case["cons_step_h"] * 3_600_000_000))
     comp = fm.Composition([src, cons], print_log=False, log_level=logging.CRITICAL,
-                          slot_memory_limit=limit, slot_memory_location=location)
+                          slot_memory_limit=comp_limit, slot_memory_location=location)
     slots.append(src.outputs["Out"])
     if case["kind"] == "output":
         src.outputs["Out"] >> cons.inputs["In"]
     else:
         a = make_adapter(case)
+        if slot_limit is not None:
+            a.memory_limit = slot_limit
         slots.append(a)
         src.outputs["Out"] >> a >> cons.inputs["In"]
     err = None
@@ -420,7 +447,7 @@ def corpus():
             ["pull", 0, 8], ["push", 32, [7, 0]], ["pull", 0, 24], ["pull", 0, 28], ["pull", 0, 32]]
     for kind in KINDS:
         for limit in (0, 16, 17, 40):
-            for payload in ("plain", "masked"):
+            for payload in ("plain", "masked", "maskedflex"):
                 c = {"kind": kind, "payload": payload, "shape": "g2", "limit": limit, "units": "m", "n_ends": 1,
                      "events": base}
                 if kind == "step":
@@ -436,9 +463,10 @@ def corpus():
 def comp_corpus():
     out = []
     for kind in KINDS:
-        for limit, payload in ((0, "plain"), (0, "masked"), (24, "plain")):
+        for limit, payload, own in ((0, "plain", None), (0, "masked", None), (24, "plain", None), (0, "plain", "none"),
+                                    (16, "maskedflex", "generous")):
             c = {"kind": kind, "payload": payload, "shape": "g2", "limit": limit, "units": "m", "n_ends": 1,
-                 "cons_step_h": 12, "days": 3}
+                 "cons_step_h": 12, "days": 3, "own_limit": own}
             if kind == "step":
                 c["pos"] = [4, 8]
             if kind in ("avg", "sum"):
